@@ -291,6 +291,10 @@ fn add_stats(rep: &mut Report, s: &Stats) {
     rep.add("lsm.manual-compactions", s.manual_compactions);
     rep.add("lsm.trivial-moves", s.trivial_moves);
     rep.add("lsm.file-deletions", s.deletes_of_files);
+    rep.add("lsm.deletion-passes-compared-with-the-model", s.obsolete_passes);
+    rep.add("lsm.deletion-pass-names-decided", s.obsolete_names);
+    rep.add("lsm.deletion-pass-names-marked", s.obsolete_deleted);
+    rep.add("lsm.deletion-pass-foreign-names", s.obsolete_foreign_names);
     rep.add("lsm.reopens", s.reopens);
     rep.add("lsm.idle-checks", s.idle_checks);
     rep.add("lsm.compactions-with-live-snapshots", s.snapshots_alive_at_compaction);
